@@ -7,7 +7,7 @@
 (*                                                   four branches / plain pass-through,     *)
 (*                                                   filter drops the session on "declined"  *)
 (*   input pump (sendInput)         InBegin(k), InCheck    (Ctrl-C -> stopTransferringFiles)  *)
-(*   handleZmodemEvent goroutine E  EInit, Sleep100, LaunchOK, LaunchFail,                    *)
+(*   handleZmodemEvent goroutine E  EInit, Sleep100, Launch, LaunchStore, LaunchFail,          *)
 (*     = handleZmodemStream reader  ReadFwd, ReadIgnore, ReadEOF, ReadErr, Break              *)
 (*   checkClientExited goroutine W  WaitReturns, WStore, WMsg, WArm, WCancel                  *)
 (*   handleZmodemError              HzeStart (CAS + cancel to the server), HzeCmd (cancel to  *)
@@ -39,7 +39,7 @@ Codes == {"zero", "nonzero"}
 
 VARIABLES up, start, sess, cursor, errArms, crashed,           \* session parameters / filter
           stopped, cleaned, cliFin, srvFin, errOcc,            \* the five flags
-          hlp, code, hlpQ,                                     \* helper process, exit status, its unread output
+          hlp, code, hlpQ, cmd,                                \* helper process, exit status, its unread output, z.cmd set
           pcE, pcW, hze, inp,                                  \* goroutines
           cuT, clT, svT, kill,                                 \* timers (armed), pending kill
           srvCan, hlpCan, hlpWaiting, errNoCmd, cleanHdr,          \* history
@@ -47,7 +47,7 @@ VARIABLES up, start, sess, cursor, errArms, crashed,           \* session parame
 
 sessv  == <<up, start, sess, cursor, errArms, crashed>>
 flags  == <<stopped, cleaned, cliFin, srvFin, errOcc>>
-helper == <<hlp, code, hlpQ>>
+helper == <<hlp, code, hlpQ, cmd>>
 pcs    == <<pcE, pcW, hze, inp>>
 timers == <<cuT, clT, svT, kill>>
 hist   == <<srvCan, hlpCan, hlpWaiting, errNoCmd, cleanHdr>>
@@ -63,7 +63,7 @@ Transferring == ~stopped \/ ~cleaned        \* isTransferringFiles()
 InitVals ==
     /\ up = FALSE /\ start = "ok" /\ sess = "none" /\ cursor = "shown" /\ crashed = FALSE
     /\ stopped = FALSE /\ cleaned = FALSE /\ cliFin = FALSE /\ srvFin = FALSE /\ errOcc = FALSE
-    /\ hlp = "none" /\ code = "zero" /\ hlpQ = <<>>
+    /\ hlp = "none" /\ code = "zero" /\ hlpQ = <<>> /\ cmd = FALSE
     /\ pcE = "idle" /\ pcW = "off" /\ hze = HzeIdle /\ inp = NoInp
     /\ cuT = FALSE /\ clT = FALSE /\ svT = FALSE /\ kill = FALSE
     /\ srvCan = FALSE /\ hlpCan = FALSE /\ hlpWaiting = FALSE /\ errNoCmd = FALSE /\ cleanHdr = FALSE
@@ -75,7 +75,7 @@ Init == InitVals /\ errArms \in ErrArms
 Reset ==
     /\ up' = FALSE /\ start' = "ok" /\ sess' = "none" /\ cursor' = "shown" /\ crashed' = FALSE
     /\ stopped' = FALSE /\ cleaned' = FALSE /\ cliFin' = FALSE /\ srvFin' = FALSE /\ errOcc' = FALSE
-    /\ hlp' = "none" /\ code' = "zero" /\ hlpQ' = <<>>
+    /\ hlp' = "none" /\ code' = "zero" /\ hlpQ' = <<>> /\ cmd' = FALSE
     /\ pcE' = "idle" /\ pcW' = "off" /\ hze' = HzeIdle /\ inp' = NoInp
     /\ cuT' = FALSE /\ clT' = FALSE /\ svT' = FALSE /\ kill' = FALSE
     /\ srvCan' = FALSE /\ hlpCan' = FALSE /\ hlpWaiting' = FALSE /\ errNoCmd' = FALSE /\ cleanHdr' = FALSE
@@ -90,7 +90,7 @@ Reset ==
 HzeStart(who, cause) ==
     /\ stopped' = TRUE /\ errOcc' = TRUE
     /\ srvCan' = TRUE
-    /\ hlpWaiting' = (hlp = "run")
+    /\ hlpWaiting' = (cmd /\ hlp = "run")
     /\ hze' = [pc |-> "cmd", who |-> who, cause |-> cause]
 
 (* if cmd := z.cmd.Load(); cmd != nil { writeAll(z.stdin, cancel); ensureClientExit(cmd) }   *)
@@ -98,7 +98,7 @@ HzeCmd ==
     /\ ~crashed
     /\ hze.pc = "cmd"
     /\ hze' = [hze EXCEPT !.pc = "msg"]
-    /\ IF hlp # "none"
+    /\ IF cmd
        THEN /\ hlpCan' = TRUE /\ kill' = TRUE
             /\ UNCHANGED errNoCmd
        ELSE /\ errNoCmd' = TRUE /\ UNCHANGED <<hlpCan, kill>>
@@ -140,9 +140,9 @@ Detect(u, st, v) ==
 OutDisp(k) ==
     IF sess # "held" THEN "pass"
     ELSE IF stopped THEN (IF cleaned THEN "pass" ELSE "held")
-    ELSE IF hlp # "none" THEN "held"
+    ELSE IF cmd THEN "held"
     ELSE IF k \in {"can", "cno"} THEN "pass" ELSE "held"
-OutFwd(k) == sess = "held" /\ ~stopped /\ hlp = "run"      \* ... and it is written to a live helper
+OutFwd(k) == sess = "held" /\ ~stopped /\ cmd /\ hlp = "run"      \* ... and it is written to a live helper
 
 (* handleServerOutput returned false: showCursor, filter.zmodem.CompareAndSwap(zmodem, nil), *)
 (* the chunk goes on to the terminal.                                                         *)
@@ -166,7 +166,7 @@ Out(k) ==
             ELSE \* z.resetCleanupTimer(); return true
                  /\ cuT' = TRUE /\ OutDisp(k) = "held"
                  /\ UNCHANGED <<sess, cursor, stopped, cleaned, srvFin, svT>>
-       ELSE IF hlp # "none"
+       ELSE IF cmd
        THEN \* forward server output to the client (z.cmd is set)
             /\ OutDisp(k) = "held"
             /\ svT' = (svT \/ ~up)
@@ -232,16 +232,23 @@ Sleep100 ==
     /\ pcE' = IF stopped THEN "done" ELSE "launch"
     /\ UNCHANGED <<sessv, flags, helper, pcW, hze, inp, timers, hist, budget>>
 
-(* choose files/path, launchZmodemCmd, z.cmd.Store(cmd), resetClientTimer, resetServerTimer,  *)
-(* go checkClientExited                                                                       *)
-LaunchOK ==
+(* choose files/path, launchZmodemCmd: the helper process exists from here on ...            *)
+Launch ==
     /\ ~crashed
     /\ pcE = "launch" /\ start = "ok"
-    /\ pcE' = "read" /\ pcW' = "wait"
+    /\ pcE' = "store"
     /\ hlp' = "run"
+    /\ UNCHANGED <<sessv, flags, code, hlpQ, cmd, pcW, hze, inp, timers, hist, budget>>
+
+(* ... but only handleZmodemStream's z.cmd.Store(cmd) makes it known to the other goroutines; *)
+(* resetClientTimer, resetServerTimer, go checkClientExited                                   *)
+LaunchStore ==
+    /\ ~crashed
+    /\ pcE = "store"
+    /\ pcE' = "read" /\ pcW' = "wait"
+    /\ cmd' = TRUE
     /\ clT' = up /\ svT' = ~up
-    /\ UNCHANGED <<sessv, flags, code, hlpQ, hze, inp, cuT, kill, srvCan, hlpCan, hlpWaiting,
-                   errNoCmd, cleanHdr, budget>>
+    /\ UNCHANGED <<sessv, flags, hlp, code, hlpQ, hze, inp, cuT, kill, hist, budget>>
 
 (* chooseUploadFiles/chooseDownloadPath or launchZmodemCmd failed: handleZmodemError(err)     *)
 LaunchFail ==
@@ -261,7 +268,7 @@ ReadFwd ==
     /\ hlpQ' = Tail(hlpQ)
     /\ clT' = up
     /\ cliFin' = (cliFin \/ Head(hlpQ) = "fin")
-    /\ UNCHANGED <<sessv, stopped, cleaned, srvFin, errOcc, hlp, code, pcs, cuT, svT, kill, hist, budget>>
+    /\ UNCHANGED <<sessv, stopped, cleaned, srvFin, errOcc, hlp, code, cmd, pcs, cuT, svT, kill, hist, budget>>
 
 (* ... "ignore zmodem output": break                                                          *)
 ReadIgnore ==
@@ -271,7 +278,7 @@ ReadIgnore ==
     /\ hlpQ' = Tail(hlpQ)
     /\ clT' = up
     /\ pcE' = "brk"
-    /\ UNCHANGED <<sessv, flags, hlp, code, pcW, hze, inp, cuT, svT, kill, hist, budget>>
+    /\ UNCHANGED <<sessv, flags, hlp, code, cmd, pcW, hze, inp, cuT, svT, kill, hist, budget>>
 
 (* err == io.EOF: break                                                                       *)
 ReadEOF ==
@@ -288,7 +295,7 @@ ReadErr ==
     /\ IF stopped
        THEN pcE' = "brk" /\ UNCHANGED <<stopped, errOcc, srvCan, hlpWaiting, hze>>
        ELSE pcE' = "hze" /\ HzeStart("R", "readerr")
-    /\ UNCHANGED <<sessv, cleaned, cliFin, srvFin, hlp, code, pcW, inp, timers, hlpCan,
+    /\ UNCHANGED <<sessv, cleaned, cliFin, srvFin, hlp, code, cmd, pcW, inp, timers, hlpCan,
                    errNoCmd, cleanHdr, budget>>
 
 (* after the loop: clientTimer.Stop(); ensureClientExit(cmd)                                  *)
@@ -357,7 +364,7 @@ Kill ==
     /\ ~crashed
     /\ kill /\ kill' = FALSE
     /\ IF hlp = "run" THEN hlp' = "dead" /\ code' = "nonzero" ELSE UNCHANGED <<hlp, code>>
-    /\ UNCHANGED <<sessv, flags, hlpQ, pcs, cuT, clT, svT, hist, budget>>
+    /\ UNCHANGED <<sessv, flags, hlpQ, cmd, pcs, cuT, clT, svT, hist, budget>>
 
 -----------------------------------------------------------------------------
 (* The local helper process (environment).                                                    *)
@@ -367,17 +374,17 @@ HelperOut(k) ==
     /\ hlp = "run" /\ nHout < MaxHout
     /\ nHout' = nHout + 1
     /\ hlpQ' = Append(hlpQ, k)
-    /\ UNCHANGED <<sessv, flags, hlp, code, pcs, timers, hist, nHdr, nSrv, nCtrlC, nText>>
+    /\ UNCHANGED <<sessv, flags, hlp, code, cmd, pcs, timers, hist, nHdr, nSrv, nCtrlC, nText>>
 
 HelperExit(c) ==
     /\ ~crashed
     /\ hlp = "run"
     /\ hlp' = "dead" /\ code' = c
-    /\ UNCHANGED <<sessv, flags, hlpQ, pcs, timers, hist, budget>>
+    /\ UNCHANGED <<sessv, flags, hlpQ, cmd, pcs, timers, hist, budget>>
 
 -----------------------------------------------------------------------------
 Short ==    \* internal steps that are due within the code's short delays (<= 500 ms)
-    \/ EInit \/ Sleep100 \/ LaunchOK \/ LaunchFail \/ ReadFwd \/ ReadIgnore \/ ReadEOF \/ ReadErr \/ Break
+    \/ EInit \/ Sleep100 \/ Launch \/ LaunchStore \/ LaunchFail \/ ReadFwd \/ ReadIgnore \/ ReadEOF \/ ReadErr \/ Break
     \/ WaitReturns \/ WStore \/ WMsg \/ WArm \/ WCancel
     \/ HzeCmd \/ HzeMsg \/ InCheck \/ Kill \/ CleanupFires
 
@@ -411,7 +418,7 @@ LongQuiescent == Quiescent /\ ~clT /\ ~svT
 (* Fairness: every internal step that is due eventually happens; the environment (server,   *)
 (* user, helper) is free -- in particular the helper may never exit and never output.        *)
 Fairness ==
-    /\ WF_vars(EInit) /\ WF_vars(Sleep100) /\ WF_vars(LaunchOK) /\ WF_vars(LaunchFail)
+    /\ WF_vars(EInit) /\ WF_vars(Sleep100) /\ WF_vars(Launch) /\ WF_vars(LaunchStore) /\ WF_vars(LaunchFail)
     /\ WF_vars(ReadFwd) /\ WF_vars(ReadIgnore) /\ WF_vars(ReadEOF \/ ReadErr) /\ WF_vars(Break)
     /\ WF_vars(WaitReturns) /\ WF_vars(WStore) /\ WF_vars(WMsg) /\ WF_vars(WArm) /\ WF_vars(WCancel)
     /\ WF_vars(HzeCmd) /\ WF_vars(HzeMsg) /\ WF_vars(InCheck) /\ WF_vars(Kill) /\ WF_vars(CleanupFires)
@@ -433,10 +440,10 @@ LiveSpecEcho == Init /\ [][NextEcho]_vars /\ Fairness /\ WF_vars(EchoStep) \* un
 TypeOK ==
     /\ sess \in {"none", "held", "dropped"} /\ cursor \in {"shown", "hidden"}
     /\ hlp \in {"none", "run", "dead"} /\ code \in Codes
-    /\ pcE \in {"idle", "init", "sleep", "launch", "read", "brk", "hze", "done"}
+    /\ pcE \in {"idle", "init", "sleep", "launch", "store", "read", "brk", "hze", "done"}
     /\ pcW \in {"off", "wait", "store", "msg", "arm", "cancel", "done"}
     /\ hze.pc \in {"idle", "cmd", "msg"}
-    /\ (hlp = "none") = (pcW = "off")
+    /\ cmd = (pcW # "off") /\ (cmd => hlp # "none")
 
 (* Output that carries a cancel sequence or a 'cannot open' message alongside a header does  *)
 (* not start a session.                                                                       *)
@@ -469,7 +476,7 @@ Stuck == Quiescent /\ sess = "held" /\ stopped /\ ~cleaned
 NotStuck == ~Stuck
 NotStuckButNoCmd == Stuck => errNoCmd                \* what the current code achieves (finding F1)
 (* A session that is not stopped at quiescence has a live helper (it is really active).      *)
-ActiveHasHelper == (Quiescent /\ sess = "held" /\ ~stopped) => hlp = "run"
+ActiveHasHelper == (Quiescent /\ sess = "held" /\ ~stopped) => (cmd /\ hlp = "run")
 (* After the 20 s timers nothing is left active.                                              *)
 LongQuietEndsAll == (LongQuiescent /\ sess = "held") => stopped
 (* The cursor hidden at the start is shown again when the filter lets go of the session.     *)
